@@ -107,3 +107,13 @@ VARIANTS += [
          old="    def apply_logs(self, logs: list[dict[str, Any]]) -> None:\n",
          new="    def apply_logs(self, logs: list[dict[str, Any]]) -> None:\n        self._next_study_id = len(self._studies)\n"),
 ]
+
+VARIANTS += [
+    # round 4
+    dict(id="c06-answer-before-sync", prop="C06", file=JS, expect="R06.9",
+         old="    def get_study_name_from_id(self, study_id: int) -> str:\n        with self._thread_lock:\n            self._sync_with_backend()\n",
+         new="    def get_study_name_from_id(self, study_id: int) -> str:\n        with self._thread_lock:\n            if study_id in self._replay_result._studies:\n                return self._replay_result._studies[study_id].study_name\n            self._sync_with_backend()\n"),
+    dict(id="c06-worker-local-memo", prop="C06", file=JS, expect="R06.9",
+         old="        with self._thread_lock:\n            self._write_log(JournalOperation.DELETE_STUDY, {\"study_id\": study_id})\n            self._sync_with_backend()\n",
+         new="        with self._thread_lock:\n            self._write_log(JournalOperation.DELETE_STUDY, {\"study_id\": study_id})\n            self._sync_with_backend()\n            self._backend_seen = getattr(self, \"_backend_seen\", 0) + 1\n"),
+]
